@@ -32,7 +32,10 @@ RULE = ("one case = one workload (1-3 producers, set_data/add_metadata/save/abor
         "overwritten-by-==-value-of-other-type, None-written-to-new-key; an abort stream (recordings ended by save, by "
         "abort_recording, by both in either order, by another caller: exhaustive token schedules of 7 small workloads, "
         "random workloads, explorations; input_distribution shows abort-after-save / save-after-abort / "
-        "abort-instead-of-save / abort-with-other-callers); "
+        "abort-instead-of-save / abort-with-other-callers); a key-text stream: data keys, metadata keys and categories (hence "
+        "recording ids) as free text - TapeRecorder-style input keys embedding json, a route with a {placeholder}, format "
+        "fields, lone braces, percent directives, non-ASCII - x a failing storage call at every position of two small "
+        "workloads + random workloads with frequent failures (key-and-category-texts:*, failing-storage-call-with-key-texts:*); "
         "non-trivial = at least two requests; distinct = distinct (workload, schedule)")
 EXHAUSTIVE = {"quick": True, "thorough": True}
 ASSUMPTIONS = [
@@ -592,6 +595,30 @@ def abort_cases(rng, quick):
     return light, heavy
 
 
+# key / metadata-key / category texts (harness/impl/async_driver.py NAMINGS): free text of the recorder's user
+NAMING_NAMES = ["tape-recorder", "route-category", "format-fields", "lone-brace", "percent", "unicode"]
+
+
+def naming_cases(rng, quick):
+    """Round 7.  The TEXT of data keys, metadata keys and categories (hence recording ids) is free: the TapeRecorder's own
+    input keys embed the captured arguments as json (braces, quotes, brackets), categories are e.g. routes with
+    placeholders.  Every naming x (a) a small workload with a failing storage call at every position under a few token
+    schedules, (b) random workloads with frequent failures under random token schedules.  The model is the same (keys
+    are numbers there; a naming is a bijection number <-> text)."""
+    out = []
+    for ni, naming in enumerate(NAMING_NAMES):
+        for work in (W_ONE3, W_TWO3):
+            for j in range(nops(work)):
+                wv = with_fail_at(work, j, 1 + (j + ni) % 4)
+                scheds = list(token_schedules(wv, 2, (0, 2)))
+                for toks in rng.sample(scheds, min(len(scheds), 2 if quick else 6)):
+                    out.append(dict(mk(wv, dict(kind="tokens", tokens=toks), "key-texts-fail-at-every-position"), naming=naming))
+        for _ in range(8 if quick else 80):
+            w = rand_work(rng, rng.randrange(1, 4), 6, rng.randrange(1, 4), pfail=0.35)
+            out.append(dict(mk(w, dict(kind="tokens", tokens=rand_tokens(rng, w)), "key-texts-random"), naming=naming))
+    return out
+
+
 def generate(rng, tier):
     quick = tier == "quick"
     light, heavy = [], []
@@ -643,7 +670,7 @@ def generate(rng, tier):
             w = rand_work(rng, 1 + j % 3, 6, 1 + j % 3, pfail=0.1, after_save=0.0)
             heavy.append(mk(w, dict(kind="threads", runs=3, delay=[0.0, 0.003, 0.05][j % 3], switch=1e-5), "real-threads"))
     # 6. long histories (hundreds to thousands of requests, big backlog at close / big batches): token schedules, full
-    #    model comparison; thorough adds free-running real threads with a flush interval longer than the session
+    #    model comparison; the text of keys / categories is a case parameter (default k<n>, m<n>, "cat"; six other namings with braces, format fields, percent directives, json, non-ASCII - always run with a failing storage call at every position): a failing call whose key or recording id holds such text is skipped like any other and nothing after it is lost; thorough adds free-running real threads with a flush interval longer than the session
     #    (drawn last: the streams above are the same cases as before for every seed)
     longs = long_cases(rng, quick)
     if not quick:
@@ -673,6 +700,8 @@ def generate(rng, tier):
         c["model"] = False
         c["label"] = "long-history-stalled-storage-huge"
         heavy.insert(min(len(heavy), 2 + 7 * j), c)
+    # 10. key / category texts with braces, percent signs, non-ASCII x failing storage calls (drawn after the streams above)
+    light += naming_cases(rng, quick)
     # spread the heavy cases evenly (the driver is sharded over contiguous chunks), the explorations - heaviest - first
     expl = [c for c in heavy if c["sched"]["kind"] == "explore"]
     expl.sort(key=lambda c: -c["sched"]["max_runs"] * {"atomic": 1, "line": 2, "opcode": 2}[c["sched"]["gran"]])
@@ -1100,6 +1129,10 @@ def features(case):
         if trunc:
             f.add("exploration-truncated-at-max_runs")
     w = case["work"]
+    if case.get("naming"):
+        f.add("key-and-category-texts:" + case["naming"])
+        if any(op.get("fail") for ops in w for op in ops):
+            f.add("failing-storage-call-with-key-texts:" + case["naming"])
     f.add("producers=%d" % len(w))
     f.add("requests=%s" % (nops(w) if nops(w) < 6 else "6+"))
     if nops(w) >= 100:
@@ -1193,7 +1226,7 @@ def nontrivial(case):
 
 MANIFEST = dict(
     design_ref='6/C12',
-    text='Coq theorems over ALL reachable states of a producer/buffer/flusher transition system (any number of producers, any workloads of set_data/add_metadata/save with failing storage calls, any interleaving, any timer firing pattern): invariant applied++batch++buffer = enqueue order; when the flusher is done every accepted request was applied exactly once in enqueue order and the wrapped cassette and every outcome equal the synchronous run (sync_apply), also when callers keep changing a metadata dict after passing it (legacy defect F12 refuted with a witness, repaired by ba7c02c); failure does not block; producers blocked only inside the two-statement swap; termination within |buffer|+|batch|+8 flusher steps after close. Model tied to /repo on every run by driving the REAL AsyncRecordOnlyTapeCassette/AsyncRecording under deterministic schedules (cooperative scheduler over substituted Thread/Lock/Event, re-entrant spy cassette, sys.settrace line stepping): exhaustive token interleavings of small workloads, bounded-preemption exhaustive exploration at atomic and source-line granularity, seeded random walks, and long histories (10^2..10^4 requests, 1-3 producers) under schedules that leave hundreds to thousands of requests pending at close() or in one flush batch (timer never fires, flusher inside a storage call while the burst arrives, one big flush midway, rare timer), and value-shape workloads (recorded values are Python values with their types, val := pyval: None, False/0/0.0/-0.0, True/1/1.0, ==-equal containers, empty containers, the same value written again - every ordered overwrite pair and every first write, unflushed and flushed in between, plus random shaped workloads); Coq replays every implementation trace (each step must be enabled) and compares applied order, outcomes, stored recordings. ast gate: every buffer access under the lock. Direct predicate on the implementation: exactly-once, per-producer and real-time order, contents == synchronous twin compared type-exactly (True is not 1, None is not "absent"), no storage call on caller threads, callers never blocked by a storage call - also not by a bounded buffer: a burst of > 10^4 requests behind a storage call that never returns must be accepted without the flusher moving (caller-waits-for-storage) -, no deadlock; abort_recording (model: Abort request, carried out at the caller, never blocked, enqueues nothing, wrapped cassette untouched - C12_abort_*; workloads whose recordings end by save, abort, both in either order, by another caller: what was requested before the abort, the save included, is still applied and the stored recordings equal the synchronous twin that aborts too); thorough adds free-running real threads (also bursts of thousands of requests with a flush interval longer than the session).',
+    text='Coq theorems over ALL reachable states of a producer/buffer/flusher transition system (any number of producers, any workloads of set_data/add_metadata/save with failing storage calls, any interleaving, any timer firing pattern): invariant applied++batch++buffer = enqueue order; when the flusher is done every accepted request was applied exactly once in enqueue order and the wrapped cassette and every outcome equal the synchronous run (sync_apply), also when callers keep changing a metadata dict after passing it (legacy defect F12 refuted with a witness, repaired by ba7c02c); failure does not block; producers blocked only inside the two-statement swap; termination within |buffer|+|batch|+8 flusher steps after close. Model tied to /repo on every run by driving the REAL AsyncRecordOnlyTapeCassette/AsyncRecording under deterministic schedules (cooperative scheduler over substituted Thread/Lock/Event, re-entrant spy cassette, sys.settrace line stepping): exhaustive token interleavings of small workloads, bounded-preemption exhaustive exploration at atomic and source-line granularity, seeded random walks, and long histories (10^2..10^4 requests, 1-3 producers) under schedules that leave hundreds to thousands of requests pending at close() or in one flush batch (timer never fires, flusher inside a storage call while the burst arrives, one big flush midway, rare timer), and value-shape workloads (recorded values are Python values with their types, val := pyval: None, False/0/0.0/-0.0, True/1/1.0, ==-equal containers, empty containers, the same value written again - every ordered overwrite pair and every first write, unflushed and flushed in between, plus random shaped workloads); Coq replays every implementation trace (each step must be enabled) and compares applied order, outcomes, stored recordings. ast gate: every buffer access under the lock. Direct predicate on the implementation: exactly-once, per-producer and real-time order, contents == synchronous twin compared type-exactly (True is not 1, None is not "absent"), no storage call on caller threads, callers never blocked by a storage call - also not by a bounded buffer: a burst of > 10^4 requests behind a storage call that never returns must be accepted without the flusher moving (caller-waits-for-storage) -, no deadlock; abort_recording (model: Abort request, carried out at the caller, never blocked, enqueues nothing, wrapped cassette untouched - C12_abort_*; workloads whose recordings end by save, abort, both in either order, by another caller: what was requested before the abort, the save included, is still applied and the stored recordings equal the synchronous twin that aborts too); the text of keys / categories is a case parameter (default k<n>, m<n>, "cat"; six other namings with braces, format fields, percent directives, json, non-ASCII - always run with a failing storage call at every position): a failing call whose key or recording id holds such text is skipped like any other and nothing after it is lost; thorough adds free-running real threads (also bursts of thousands of requests with a flush interval longer than the session).',
     note='Trusted: Coq kernel + vm_compute; hand-written model; atomic-step reduction (argued, gated by the ast lock check); the cooperative scheduler and trace projection of the driver; join timeout expiry, daemon-thread death at interpreter exit and true parallel lock behaviour are runtime (partial).',
     technique='Coq proof (invariant over a step relation, refinement to a synchronous fold) + trace-replay correspondence by vm_compute + systematic schedule exploration of the real code',
 )
